@@ -137,6 +137,48 @@ Proof. induction 1 as [| x a Hx _ IH]; cbn [sum_xprod]; lia. Qed.
 Lemma sum_xprod_nonpos a : Forall (fun x : ring => xprod x <= 0) a -> sum_xprod a <= 0.
 Proof. induction 1 as [| x a Hx _ IH]; cbn [sum_xprod]; lia. Qed.
 
+(** ** the loop after kmpDeduplicate ([trimClosing]) only removes loops (a, a) from the cyclic edges *)
+Lemma pairs_snoc_repeat a k : forall l : list pt,
+  pairs ((l ++ [a]) ++ repeat a k) = pairs (l ++ [a]) ++ repeat (a, a) k.
+Proof.
+  induction k as [| k IH]; intro l; [cbn [repeat]; rewrite !app_nil_r; reflexivity |].
+  cbn [repeat]. replace ((l ++ [a]) ++ a :: repeat a k) with (((l ++ [a]) ++ [a]) ++ repeat a k)
+    by (rewrite <- (app_assoc (l ++ [a]) [a]); reflexivity).
+  rewrite (IH (l ++ [a])). rewrite <- (app_assoc l [a] [a]). cbn [app]. rewrite pairs_snoc, <- app_assoc. reflexivity.
+Qed.
+
+Lemma cedges_trim (r : ring) : exists a k, cedges r = cedges (trimClosing r) ++ repeat (a, a) k.
+Proof.
+  destruct r as [| a t]; [exists dp, 0%nat; reflexivity |].
+  destruct (trimClosing_spec a t) as [k [E Hs]]. exists a.
+  destruct Hs as [Ht | [m [z [Ht Hz]]]]; rewrite Ht in E |- *.
+  - rewrite (cedges_small [a]) by (cbn; lia). cbn [app].
+    destruct k as [| k]; [exists 0%nat; rewrite E; reflexivity |]. exists (S (S k)).
+    rewrite E. cbn [app repeat]. unfold ProofsKmpEdges.cedges. rewrite kpairs_eq.
+    replace ((a :: a :: repeat a k) ++ [a]) with (([] ++ [a]) ++ repeat a (S (S k)))
+      by (cbn [app repeat]; rewrite <- repeat_cons; reflexivity).
+    rewrite pairs_snoc_repeat. reflexivity.
+  - exists k. rewrite E.
+    assert (L2 : (2 <= length (a :: m ++ [z]))%nat) by (cbn [length]; rewrite app_length; cbn [length]; lia).
+    assert (L2' : (2 <= length ((a :: m ++ [z]) ++ repeat a k))%nat) by (rewrite app_length; lia).
+    rewrite (cedges_dedges _ L2), (cedges_dedges _ L2').
+    change ((a :: m ++ [z]) ++ repeat a k) with (a :: ((m ++ [z]) ++ repeat a k)). unfold dedges.
+    replace ((a :: (m ++ [z]) ++ repeat a k) ++ [a]) with (((a :: m ++ [z]) ++ [a]) ++ repeat a k).
+    + apply (pairs_snoc_repeat a k (a :: m ++ [z])).
+    + cbn [app]. f_equal. rewrite <- !app_assoc. f_equal. f_equal. cbn [app]. apply repeat_cons.
+Qed.
+
+Lemma cedges_trim_In (r : ring) e : In e (cedges (trimClosing r)) -> In e (cedges r).
+Proof. destruct (cedges_trim r) as [a [k E]]. rewrite E. intro H. apply in_or_app. left. exact H. Qed.
+
+Lemma sumc_loops a k : sumc (repeat (a, a) k) = 0.
+Proof. induction k as [| k IH]; [reflexivity |]. cbn [repeat sumc fst snd]. unfold cross. lia. Qed.
+
+Lemma xprod_trimClosing (r : ring) : xprod (trimClosing r) = xprod r.
+Proof.
+  rewrite !xprod_cedges. destruct (cedges_trim r) as [a [k E]]. rewrite E, sumc_app, sumc_loops. lia.
+Qed.
+
 (** ** one ring: cleanupNewRing on the class *)
 
 (** edges: every cyclic edge of every ring returned for one input ring is an edge of the routed-and-cleaned
@@ -150,12 +192,13 @@ Proof.
   - apply small_sets_rings in Hx. destruct Hx as [-> _]. left. exact He.
   - apply small_sets_rings in Hx. destruct Hx as [-> _]. left.
     destruct (ProofsKmpLe2.kmp_conserves_le2 c Hle) as [r' [Hk' Hc]]. fold c in Hk. rewrite Hk in Hk'.
-    inversion Hk'; subst r'. exact (conserves_In _ _ e Hc He).
+    inversion Hk'; subst r'. exact (conserves_In _ _ e Hc (cedges_trim_In _ _ He)).
   - destruct (ProofsKmpLe2.kmp_conserves_le2 c Hle) as [r' [Hk' Hc]]. fold c in Hk. rewrite Hk in Hk'.
     inversion Hk'; subst r'.
     apply cedges_incl_dedges in He. destruct e as [a b].
     destruct (split_edge_from _ _ _ _ _ _ _ Hs Hx He) as [Hd | Hd];
-      rewrite <- (cedges_dedges r2) in Hd by lia; [left | right]; exact (conserves_In _ _ _ Hc Hd).
+      rewrite <- (cedges_dedges (trimClosing r2)) in Hd by lia; [left | right];
+      exact (conserves_In _ _ _ Hc (cedges_trim_In _ _ Hd)).
 Qed.
 
 (** area: what one input ring adds to the collected shells and holes is the doubled area of its
@@ -172,16 +215,18 @@ Proof.
     cbn [outers inners app sum_xprod].
   - left. symmetry. apply xprod_small, Hl.
   - left. destruct (ProofsKmpLe2.kmp_conserves_le2 c Hle) as [r' [Hk' Hc]]. fold c in Hk. rewrite Hk in Hk'.
-    inversion Hk'; subst r'. rewrite (xprod_cedges c), (conserves_sumc _ _ Hc), <- xprod_cedges.
+    inversion Hk'; subst r'. rewrite (xprod_cedges c), (conserves_sumc _ _ Hc), <- xprod_cedges, <- xprod_trimClosing.
     symmetry. apply xprod_small, Hl2.
   - destruct (ProofsKmpLe2.kmp_conserves_le2 c Hle) as [r' [Hk' Hc]]. fold c in Hk. rewrite Hk in Hk'.
     inversion Hk'; subst r'.
-    assert (Ec : xprod c = xprod r2) by (rewrite (xprod_cedges c), (conserves_sumc _ _ Hc), <- xprod_cedges; reflexivity).
+    assert (Ec : xprod c = xprod (trimClosing r2))
+      by (rewrite (xprod_cedges c), (conserves_sumc _ _ Hc), <- xprod_cedges, xprod_trimClosing; reflexivity).
+    set (r2t := trimClosing r2) in *.
     destruct (split_orientation _ _ _ _ Hs) as [Oo [Oi Op]].
     assert (Zp : sum_xprod (pointsAndLines sets) = 0).
     { apply sum_xprod_small. eapply Forall_impl; [| exact Op]. cbn beta. intros; lia. }
     destruct (split_conserves _ _ _ _ Hs) as [s0 [Es P]].
-    assert (Et : sum_xprod (outers s0) + sum_xprod (inners s0) + sum_xprod (pointsAndLines s0) = xprod r2).
+    assert (Et : sum_xprod (outers s0) + sum_xprod (inners s0) + sum_xprod (pointsAndLines s0) = xprod r2t).
     { rewrite <- Z.add_assoc, <- !sum_xprod_app, sum_xprod_dedges, xprod_dedges. apply sumc_perm, P. }
     unfold contribOK. rewrite Ec, sum_xprod_app.
     destruct (swapb o s0) eqn:Sw.
@@ -225,7 +270,8 @@ Theorem ringStep_kmp_argument g hots L cfg acc idx r acc' : aAlive acc = true ->
   ringStep g hots L cfg acc idx r = Ok acc' ->
   exists c m sets, routedClean g hots L idx r = Ok c /\
     (if (length c <? 3)%nat then Ok (mkSets [] [] (asPointOrLine c))
-     else do r2 <- kmpDeduplicate c;
+     else do rk <- kmpDeduplicate c;
+          let r2 := trimClosing rk in
           if (length r2 <? 3)%nat then Ok (mkSets [] [] (asPointOrLine r2)) else splitRing r2 (Nat.eqb idx 0) m) = Ok sets /\
     acc' = if deadb cfg (Nat.eqb idx 0) sets
            then mkAcc false (aHits acc') (aOuters acc) (aInners acc) (aPL acc)
